@@ -169,6 +169,7 @@ def gen_case(rng: random.Random, algo: str, T: int, E: int, ids, exact: bool, ve
         # learned, and with a Discrete action space `reshape_from_space` raises on the 0-d action tensor;
         # outside the property (nothing is applied to anything) -- keep the shape, avoid the unrelated crash
         case["akind"] = "box"
+        case["okind"] = "vector"                            # same corner for a Discrete observation member
     it = iter(vals)
     pat_case = rng.choice(PATTERNS + ["per-column"] * 4)
     for a in ids:
@@ -279,6 +280,12 @@ def build_agent(case):
         except Exception:                                   # noqa: BLE001 - clone / checkpoint are C01 / C07's subject
             pass
     critics = [ag.critic] if case["algo"] == "PPO" else list(ag.critics)
+    if not case["exact"] and case.get("okind", "vector") != "vector":
+        # spread the bootstrap values of different (agent, env) next observations well apart
+        for cr in critics:
+            lin = [m for _, m in cr.named_modules() if isinstance(m, torch.nn.Linear)][-1]
+            with torch.no_grad():
+                lin.weight.mul_(8.0)
     if case["exact"]:
         b = float(Fr(case["nvb"]))
         for cr in critics:
@@ -1578,6 +1585,25 @@ def structured_cases(rng: random.Random, tier: str):
         c = gen_case(rng, "PPO", T, E, None, exact=True)
         c["okind"] = okind
         cases.append(c)
+    # … every observation family for the bootstrap (real critic, so that next_value differs per agent and env):
+    #    Dict / Tuple / raw 0..255 images with normalize_images on and off, IPPO with 2 and 3 agents sharing, PPO
+    for algo, ids, okind, norm in [("IPPO", ID_SETS[1], "dict", True), ("IPPO", ID_SETS[4], "tuple", True),
+                                   ("IPPO", ID_SETS[1], "image", False), ("IPPO", ID_SETS[2], "image", True),
+                                   ("IPPO", UNSORTED_ID_SETS[0], "dict", True), ("PPO", None, "image", False),
+                                   ("PPO", None, "image", True), ("PPO", None, "dict", True)]:
+        c = gen_case(rng, algo, 3, 2, ids, exact=False)
+        c["okind"], c["norm"] = okind, norm
+        for a in c["ids"]:
+            c["nd"][a][0] = 0                               # a non-terminal final step
+        cases.append(c)
+    # … rewards as environments give them: integer-typed on the first step, fractional floats later
+    for algo, ids, vec in [("PPO", None, True), ("IPPO", ID_SETS[1], True), ("PPO", None, False), ("IPPO", ID_SETS[1], False)]:
+        c = gen_case(rng, algo, 4, 2 if vec else 1, ids, exact=True, vec=vec)
+        c["rmix"] = "int-first"
+        for a in c["ids"]:
+            c["r"][a][0] = [str(rng.randint(-2, 2)) for _ in range(c["E"])]
+            c["r"][a][1] = [frac(Fr(2 * rng.randint(-4, 3) + 1, 4)) for _ in range(c["E"])]      # never an integer
+        cases.append(c)
     # … gamma / lambda changed AFTER construction, by every route, for both algorithms
     for route in HP_ROUTES:
         for algo, ids in (("IPPO", ID_SETS[1]), ("PPO", None)):
@@ -1607,9 +1633,10 @@ def run(chk: Check) -> None:
     chk.rule = ("real PPO.learn / IPPO.learn on rollouts with provenance-coded observations, actions, old log-probs "
                 "and values; T in 1..6, envs 1..4 (with and without an env dimension when 1), 1..3 agents in "
                 "homogeneous groups in several dict orders (interleaved with other groups, listed in NON-lexicographic order "
-                "within a group, and eleven agents agent_0..agent_10 sharing one policy), PPO observations flat Box or Dict/Tuple with a Discrete member (every member "
+                "within a group, and eleven agents agent_0..agent_10 sharing one policy), observations flat Box, Dict/Tuple with a Discrete member or raw 0..255 images with normalize_images on/off for PPO and IPPO (every member "
                 "decoded), episode boundaries at the first/last step, in next_done, "
-                "per column; gamma, lambda dyadic (exact diff) or 0.99/0.95-like with the real critic (toleranced), given to the "
+                "per column; rewards handed over as arrays / numpy scalars / Python numbers of mixed dtypes (integer-typed first step, "
+                "fractional floats later) and always compared with what was fed; gamma, lambda dyadic (exact diff) or 0.99/0.95-like with the real critic (toleranced), given to the "
                 "constructor or changed afterwards (setattr / clone / checkpoint round trip / RL-hp mutation) and always "
                 "compared with the recursion over the agent's CURRENT values; "
                 "distinct = distinct case dictionaries; non-trivial = an episode boundary inside the rollout/next_done "
@@ -1834,6 +1861,75 @@ def selftest(chk: Check) -> None:
     if not all(hits):
         raise InfraError(f"C17 self-test: a Discrete observation member flattened time-major was not noticed ({hits})")
     chk.notes.append("self-test: PPO Dict/Tuple observation with a scalar member flattened time-major detected")
+
+    # round-4 faults: rewards truncated to the dtype of the first step while stacking; `dim` not forwarded for
+    # Dict / Tuple next observations; normalize_images ignored for the final next observation
+    def _probe(algo, ids, **kw):
+        c = gen_case(rng, algo, 3, 2, ids, exact=kw.pop("exact", False))
+        c.update(kw)
+        c["hp_route"] = "ctor"
+        return c
+    orig_stack_p, orig_stack_i = ppo_mod.stack_experiences, ippo_mod.stack_experiences
+
+    def trunc_stack(*exps, **kw):
+        fixed = []
+        for x in exps:
+            if isinstance(x, list) and x and isinstance(x[0], (np.ndarray, int, float, np.generic)) and \
+                    not isinstance(x[0], dict):
+                first = np.asarray(x[0])
+                if first.dtype.kind == "i":
+                    x = [np.asarray(y).astype(first.dtype) for y in x]
+            fixed.append(x)
+        return orig_stack_p(*fixed, **kw)
+    r_probes = []
+    for algo, ids in (("PPO", None), ("IPPO", ID_SETS[1])):
+        c = _probe(algo, ids, exact=True, rmix="int-first", okind="vector")
+        for a in c["ids"]:
+            c["r"][a][0] = ["1", "-1"]
+            c["r"][a][1] = ["3/4", "-5/4"]
+        r_probes.append(c)
+    ppo_mod.stack_experiences = ippo_mod.stack_experiences = trunc_stack
+    try:
+        hits = [bool(o["problems"]) or o["diff"] is not None for o in (one_case(chk, c, random.Random(5)) for c in r_probes)]
+    finally:
+        ppo_mod.stack_experiences, ippo_mod.stack_experiences = orig_stack_p, orig_stack_i
+    if not all(hits):
+        raise InfraError(f"C17 self-test: rewards truncated to the first step's integer dtype were not noticed ({hits})")
+    chk.notes.append("self-test: rewards truncated to the integer dtype of the first step while stacking detected (PPO, IPPO)")
+
+    orig_vec = ippo_mod.vectorize_experiences_by_agent
+
+    def vec_no_dim(experiences, dim=1):
+        sample = next(iter(experiences.values())) if experiences else None
+        if isinstance(sample, dict):
+            return {k: orig_vec({a: experiences[a][k] for a in experiences}) for k in sample}
+        if isinstance(sample, tuple):
+            return tuple(orig_vec({a: experiences[a][i] for a in experiences}) for i in range(len(sample)))
+        return orig_vec(experiences, dim)
+    o_probes = [_probe("IPPO", ID_SETS[1], okind="dict"), _probe("IPPO", ID_SETS[1], okind="tuple")]
+    ippo_mod.vectorize_experiences_by_agent = vec_no_dim
+    try:
+        hits = [bool(o["problems"]) or o["diff"] is not None for o in (one_case(chk, c, random.Random(5)) for c in o_probes)]
+    finally:
+        ippo_mod.vectorize_experiences_by_agent = orig_vec
+    if not all(hits):
+        raise InfraError(f"C17 self-test: Dict/Tuple next observations stacked in (env, agent) order were not noticed ({hits})")
+    chk.notes.append("self-test: IPPO bootstrap values of Dict/Tuple next observations in (env, agent) order detected")
+
+    f = _patched_method(ippo_mod.IPPO, "_learn_individual", "next_state, obs_space, self.device, self.normalize_images",
+                        "next_state, obs_space, self.device")
+    if f is None:
+        chk.notes.append("self-test: fault 'normalize_images ignored for next_state' not applicable to the source")
+    else:
+        orig_m = ippo_mod.IPPO._learn_individual
+        ippo_mod.IPPO._learn_individual = f
+        try:
+            o = one_case(chk, _probe("IPPO", ID_SETS[1], okind="image", norm=False), random.Random(5))
+        finally:
+            ippo_mod.IPPO._learn_individual = orig_m
+        if not o["problems"] and o["diff"] is None:
+            raise InfraError("C17 self-test: next observation normalised although normalize_images=False was not noticed")
+        chk.notes.append("self-test: IPPO final next observation normalised despite normalize_images=False detected")
 
     # gamma * lambda cached at construction: invisible unless gamma / lambda change afterwards
     f = _patched_method(ippo_mod.IPPO, "_learn_individual", "self.gamma * self.gae_lambda * next_non_terminal",
